@@ -1163,6 +1163,14 @@ impl Tera {
             return Err(Error::message(reports.join("\n\n")));
         }
 
+        // the one-off template exists only during this call: a recorded trace carries its listing
+        #[cfg(tera_verif)]
+        if crate::verif::tracing() {
+            for line in Self::verif_listing_of(&template) {
+                crate::verif::emit(|| format!("{{\"e\":\"listing\",\"l\":{line}}}"));
+            }
+        }
+
         let mut vm = VirtualMachine::new(self, &template);
         vm.render_to(None, context, &self.global_context, write)
     }
@@ -1402,8 +1410,13 @@ impl Tera {
 
     /// Listing of a one-off source compiled with this instance's delimiters
     pub fn verif_listing_str(&self, input: &str) -> TeraResult<Vec<String>> {
-        use crate::verif::json_str;
         let t = Template::new(ONE_OFF_TEMPLATE_NAME, input, None, self.delimiters.clone())?;
+        Ok(Self::verif_listing_of(&t))
+    }
+
+    /// Listing lines (main chunk, blocks, components) of one compiled template
+    pub(crate) fn verif_listing_of(t: &Template) -> Vec<String> {
+        use crate::verif::json_str;
         let mut out = vec![format!(
             "{{\"tpl\":{},\"kind\":\"main\",\"h\":{},\"code\":{},\"pre\":{}}}",
             json_str(&t.name),
@@ -1435,7 +1448,7 @@ impl Tera {
                 t.components[c].1.verif_json_pre()
             ));
         }
-        Ok(out)
+        out
     }
 
     /// Projection of the registry: parents, block lineages (templates of origin), autoescape
